@@ -98,6 +98,7 @@ def build(force=False, quiet=True):
 def env(extra=None):
     e = dict(os.environ)
     e['PYTHONPATH'] = OVERLAY
+    e['DADI_OVERLAY'] = OVERLAY
     e['PYTHONHASHSEED'] = '0'
     e['PYTHONDONTWRITEBYTECODE'] = '1'
     e['OMP_NUM_THREADS'] = '1'
